@@ -278,12 +278,7 @@ fn check_slot(s: &Slot, step: usize, what: &str) -> Result<Walk, Violation> {
             step, what, r.agg, s.m
         );
     }
-    vensure!(
-        w.edges_le == w.edges || w.edges_ge == w.edges,
-        "heap-order",
-        "step {} ({}): priorities are not heap-ordered in one direction: {} edges, {} with parent<=child, {} with parent>=child",
-        step, what, w.edges, w.edges_le, w.edges_ge
-    );
+    // heap order is property C16's business (judged by run_case_heap_only); C03 holds for every tree shape
     Ok(w)
 }
 
